@@ -53,6 +53,7 @@ type run struct {
 	// executeClaim.  Deposits / executed withdrawals are counted ONCE PER EVENT, when the event leaves the pending store.
 	book      []*claimRec
 	contracts []common.Address // contracts[0] keeps what it receives; the others re-enter executeClaim
+	ibc       *ibcEnv          // group 5: IBC voucher alias (ibc_test.go)
 }
 
 // claimRec: one observed claim
@@ -327,6 +328,7 @@ func (r *run) userHeld() []map[int]*big.Int {
 			for k := 0; k < 5; k++ {
 				sum.Add(sum, w.Holding(g, k, acc))
 			}
+			sum.Add(sum, r.voucherHeld(i, g.G)) // the IBC voucher is one more representation
 			res[i][g.G] = sum
 		}
 	}
@@ -372,7 +374,7 @@ func (r *run) execLate(line string, f func() string, expect map[[2]int]int, dep,
 		}
 	}
 	r.syncExt()
-	obs := kind + " " + strings.TrimSpace(r.w.Dump()+r.extras()+r.claimExtras())
+	obs := kind + " " + strings.TrimSpace(r.w.Dump()+r.extras()+r.claimExtras()+r.ibcExtras())
 	r.out.Emit(line, obs)
 	r.out.Count("op:" + op + ":" + kind)
 	if kind == "err" {
@@ -399,6 +401,13 @@ func (r *run) execLate(line string, f func() string, expect map[[2]int]int, dep,
 		}
 		rhs := new(big.Int).Add(r.initial[g.G], r.deposited[g.G])
 		rhs.Sub(rhs, r.withdrawn[g.G])
+		if g.G == ibcGroup && r.ibc != nil { // vouchers held by holders count; packets received / sent are deposits / withdrawals
+			for i := 0; i < r.nHolders(); i++ {
+				lhs.Add(lhs, r.voucherHeld(i, g.G))
+			}
+			rhs.Add(rhs, r.ibc.in)
+			rhs.Sub(rhs, r.ibc.out)
+		}
 		if lhs.Cmp(rhs) != 0 {
 			r.out.Violate(fmt.Sprintf("conservation broken for %s token after %s: held+inFlight=%s, initial+deposits-withdrawals=%s", kindName(g.Kind), op, lhs, rhs))
 		}
@@ -441,6 +450,10 @@ func (r *run) execLate(line string, f func() string, expect map[[2]int]int, dep,
 			}
 		}
 	}
+	// monitor 1d: every base coin of a module-owned token is backed by an escrowed alias: supply(base) = the bridge
+	// denominations held by the chains' module accounts and by the erc20 module account (the older conversion system's
+	// escrow) + the IBC vouchers parked in the ibc-transfer module account; and that account keeps no base coin
+	r.backing(op)
 	// monitor 2: every holder's holdings change by exactly the stated delta
 	after := r.userHeld()
 	for i := 0; i < len(before); i++ {
@@ -671,7 +684,7 @@ func (r *run) withdrawCheck(op string, c, g, u, total int, viaErc bool) func(str
 		}
 		if strings.Contains(res, "insufficient funds") {
 			multi := "single-chain"
-			if nChainsOf(grp) > 1 {
+			if nChainsOf(grp) > 1 || (r.ibc != nil && g == ibcGroup) { // an IBC voucher is one more alias: the escrow is per route
 				multi = "multi-chain"
 			}
 			r.out.Violate(fmt.Sprintf("withdrawal refused for lack of escrowed funds: %s of %s %s token by a holder with sufficient balance", op, multi, kindName(grp.Kind)))
@@ -698,7 +711,7 @@ func (r *run) xsend(c, g, u, n, fee int) {
 		panic(err)
 	}
 	r.exec(fmt.Sprintf("xsend %d %d %d %d %d", c, g, u, n, fee), func() string {
-		return w.CallEVM(w.Users[u].Address(), crosschaintypes.GetAddress(), big.NewInt(0), data)
+		return r.pre(u, big.NewInt(0), data)
 	}, map[[2]int]int{{u, g}: -(n + fee)}, nil, nil, r.withdrawCheck("precompile crossChain", c, g, u, n+fee, true))
 }
 
@@ -714,7 +727,7 @@ func (r *run) vsend(c, g, u, n, fee int) {
 		if w.Groups[g].Kind != bx.KindFX {
 			return "err:only the origin token travels as msg.value"
 		}
-		return w.CallEVM(w.Users[u].Address(), crosschaintypes.GetAddress(), bi(n+fee), data)
+		return r.pre(u, bi(n+fee), data)
 	}, map[[2]int]int{{u, g}: -(n + fee)}, nil, nil, func(res string) {
 		if res != "ok" && w.Groups[g].Kind == bx.KindFX && w.Groups[g].OnChain[c] && n > 0 && have.Cmp(bi(n+fee)) >= 0 && strings.Contains(res, "insufficient funds") {
 			r.out.Violate("withdrawal refused for lack of escrowed funds: precompile crossChain (msg.value) of single-chain fx token by a holder with sufficient balance")
@@ -730,7 +743,7 @@ func (r *run) xincfee(c, id, u, g, n int) {
 		panic(err)
 	}
 	r.exec(fmt.Sprintf("xincfee %d %d %d %d %d", c, id, u, g, n), func() string {
-		return w.CallEVM(w.Users[u].Address(), crosschaintypes.GetAddress(), big.NewInt(0), data)
+		return r.pre(u, big.NewInt(0), data)
 	}, map[[2]int]int{{u, g}: -n}, nil, nil, nil)
 }
 
@@ -774,7 +787,7 @@ func (r *run) cancel(c, id, u int, pre bool, tx *poolRec) {
 			panic(err)
 		}
 		r.exec(fmt.Sprintf("xcancel %d %d %d", c, id, u), func() string {
-			return w.CallEVM(w.Users[u].Address(), crosschaintypes.GetAddress(), big.NewInt(0), data)
+			return r.pre(u, big.NewInt(0), data)
 		}, exp, nil, nil, check)
 		return
 	}
@@ -918,7 +931,7 @@ func (r *run) bcout(c, u, ref int, ts []tok, pre bool) {
 			panic(err)
 		}
 		r.exec(line, func() string {
-			return w.CallEVM(w.Users[u].Address(), crosschaintypes.GetAddress(), big.NewInt(0), data)
+			return r.pre(u, big.NewInt(0), data)
 		}, exp, nil, nil, check)
 		return
 	}
@@ -955,7 +968,7 @@ func (r *run) vbcout(c, u, ref, v int, ts []tok) {
 		if v == 0 {
 			return "err:no value" // without msg.value this is the plain precompile bridge call (op bcout)
 		}
-		return w.CallEVM(w.Users[u].Address(), crosschaintypes.GetAddress(), bi(v), data)
+		return r.pre(u, bi(v), data)
 	}, exp, nil, nil, nil)
 }
 
@@ -1483,6 +1496,49 @@ func (r *run) batchScenario() {
 	}
 }
 
+// thirdPartyScenario: operations on a queued transfer requested by somebody who is NOT its sender — a fee increase by
+// message and through the precompile (the requester pays, the sender is refunded amount + whole fee on cancel), a cancel
+// attempt by the other account (refused) and the sender's own cancel
+func (r *run) thirdPartyScenario() {
+	rng := r.rng
+	a := rng.Intn(bx.NUsers)
+	b := (a + 1 + rng.Intn(bx.NUsers-1)) % bx.NUsers
+	g, c := 0, 0 // FX on eth: both hold the fee token from genesis
+	if rng.Intn(3) == 0 {
+		g = 3 + rng.Intn(2) // externally-owned on eth: both hold the ERC-20; base coins are converted first
+		r.cerc(g, a, a, 30)
+		r.cerc(g, b, b, 30)
+	}
+	r.send(c, g, a, 2+rng.Intn(9), 1+rng.Intn(3))
+	txs := r.poolTxs()
+	if len(txs) == 0 {
+		return
+	}
+	tx := txs[len(txs)-1]
+	for _, t := range txs {
+		if t.id > tx.id {
+			tx = t
+		}
+	}
+	r.out.Count("gen:scenario:third-party-fee-and-cancel")
+	n := 1 + rng.Intn(4)
+	if g != 0 {
+		r.cden(g, b, b, n, -1, c) // the requester obtains the bridge denomination
+	}
+	r.incfee(c, tx.id, b, g, n)
+	if g == 0 {
+		r.ccoin(0, b, b, 10) // WFX for the precompile path
+	}
+	r.xincfee(c, tx.id, b, g, 1+rng.Intn(3))
+	r.cancel(c, tx.id, b, rng.Intn(2) == 0, nil)
+	for _, t := range r.poolTxs() {
+		if t.c == c && t.id == tx.id {
+			tt := t
+			r.cancel(c, tx.id, a, rng.Intn(2) == 0, &tt)
+		}
+	}
+}
+
 // bridgeBal: what user u holds of the bridge denomination of (g, c) (FX: the coin itself)
 func (r *run) bridgeBal(u, g, c int) int {
 	d := r.w.Groups[g].Bridge[c]
@@ -1504,8 +1560,23 @@ func (r *run) randomIncfee() {
 	}
 	tx := txs[rng.Intn(len(txs))]
 	payer := tx.u
-	if rng.Intn(8) == 0 {
-		payer = rng.Intn(bx.NUsers)
+	if rng.Intn(4) == 0 {
+		// somebody else pays for the transfer: a different account, and mostly a transfer whose fee token BOTH hold (FX),
+		// so that the request succeeds and the question "who paid" is decided by the balances
+		payer = (tx.u + 1 + rng.Intn(bx.NUsers-1)) % bx.NUsers
+		if rng.Intn(3) > 0 {
+			var fx []poolRec
+			for _, t := range txs {
+				if t.g == 0 {
+					fx = append(fx, t)
+				}
+			}
+			if len(fx) > 0 {
+				tx = fx[rng.Intn(len(fx))]
+				payer = (tx.u + 1 + rng.Intn(bx.NUsers-1)) % bx.NUsers
+			}
+		}
+		r.out.Count("gen:incfee:other-payer")
 	}
 	g := tx.g
 	if rng.Intn(6) == 0 { // another token: prefer one whose bridge denomination / ERC-20 the payer holds
@@ -1707,7 +1778,9 @@ func (r *run) randomExec() {
 func (r *run) randomOp() {
 	rng := r.rng
 	u := rng.Intn(bx.NUsers)
-	switch k := rng.Intn(100); {
+	switch k := rng.Intn(108); {
+	case k >= 100:
+		r.randomIbc()
 	case k < 18:
 		r.randomInbound()
 	case k < 31:
@@ -1828,7 +1901,7 @@ func TestC04(t *testing.T) {
 	seed := hx.Seed()
 	rng := rand.New(rand.NewSource(seed))
 	out := hx.NewOut()
-	defer out.Close("correspondence: full ledger + in-flight records after every op (messages, claim handlers, precompile calls) on 3 users x 3 chains x 5 token groups; monitors: conservation, stated per-holder deltas, withdrawability, ERC-20 books. non-trivial = distinct (op, outcome class)")
+	defer out.Close("correspondence: full ledger + in-flight records after every op (messages, claim handlers, precompile calls) on 3 users x 3 chains x 6 token groups (one with an IBC voucher alias on a real open channel); monitors: conservation, stated per-holder deltas, withdrawability, ERC-20 books. non-trivial = distinct (op, outcome class)")
 
 	nSeq := hx.N(30, 150)
 	nOps := hx.N(60, 150)
@@ -1840,7 +1913,8 @@ func TestC04(t *testing.T) {
 	for seq := 0; seq < nSeq; seq++ {
 		s := hx.NewSuite(t, 1)
 		w := bx.NewWorld(s)
-		r := &run{w: w, out: out, rng: rng, initial: w.Held(), deposited: map[int]*big.Int{}, withdrawn: map[int]*big.Int{}, extLast: map[[2]int]int{}, extSupply: map[[2]int]*big.Int{}}
+		ibc := addIbcGroup(w)
+		r := &run{w: w, out: out, rng: rng, ibc: ibc, initial: w.Held(), deposited: map[int]*big.Int{}, withdrawn: map[int]*big.Int{}, extLast: map[[2]int]int{}, extSupply: map[[2]int]*big.Int{}}
 		r.relayer = helpers.NewSigner(helpers.NewEthPrivKey()).AccAddress()
 		for c := range bx.Chains {
 			w.Keeper(c).SetOracleAddrByBridgerAddr(w.S.Ctx, r.relayer, helpers.NewSigner(helpers.NewEthPrivKey()).AccAddress())
@@ -1855,8 +1929,11 @@ func TestC04(t *testing.T) {
 		out.Reset(m0fx.String())
 		if seq == 0 {
 			r.scripted()
+			r.scriptedIbc()
 		} else if seq%2 == 1 {
 			r.batchScenario()
+		} else if seq%4 == 2 {
+			r.thirdPartyScenario()
 		}
 		for i := 0; i < nOps; i++ {
 			r.randomOp()
